@@ -63,6 +63,7 @@ def _family(job, d):
     cfg = {'net': net, 'wt': wt, 'acct': 0, 'ms': True, 'cos': int(w.cosigner_id), 'watch': False}
     drv = c09.Driver(w, name, uri(name), cfg, rng)
     drv.gentle = bool(job.get('gentle'))
+    drv.ooo = bool(job.get('ooo'))
     for i in range(nops):
         drv.step(drv.pick_ms(), rng.randrange(0, 420))
     w = drv.w
